@@ -1,0 +1,27 @@
+"""
+Verification hooks. Everything in this module is inert unless the environment
+variable COCOASM_VERIF is set to 1: emit() then appends one event per call to an
+in-memory list that a test harness can drain. Nothing here changes behaviour.
+"""
+import os
+
+ENABLED = os.environ.get("COCOASM_VERIF") == "1"
+_EVENTS = []
+
+
+def emit(event, **fields):
+    if not ENABLED:
+        return
+    record = {"ev": event}
+    record.update(fields)
+    _EVENTS.append(record)
+
+
+def reset():
+    del _EVENTS[:]
+
+
+def drain():
+    events = list(_EVENTS)
+    del _EVENTS[:]
+    return events
